@@ -9,7 +9,8 @@ def run(tier):
     c = Check("C02", tier)
     exe = driver("asan")
     # M: every spelling of every INVALID line of the bounded family is rejected (AgreesInv)
-    cfgs, beh = model_behaviours(c, tier, cfgsel=[2, 3, 5, 6, 8])
+    # 20: value arguments: a second modification of a variable protected by the original-value check
+    cfgs, beh = model_behaviours(c, tier, cfgsel=[2, 3, 5, 6, 8, 20])
     script = os.path.join(c.wd, "replay.ndjson")
     n = behaviours_script(cfgs, beh, script, select=lambda b: not b["valid"])
     c.notes.append("R: %d distinct (configuration, argv) spellings of rule-breaking lines replayed" % n)
